@@ -119,41 +119,27 @@ Section Bound.
   Qed.
 
   (* ---- the polling loops: at most retries + 1 bytes ---------------------- *)
+  Lemma costs_poll stop err n : costs (poll dstate spi stop err n) (N.of_nat n + 1).
+  Proof.
+    induction n as [|n IH]; cbn [poll].
+    - replace (N.of_nat 0 + 1) with (1 + 0) by lia. apply costs_bind; [apply costs_read_byte|].
+      intros a. destruct (stop a); cost_step.
+    - replace (N.of_nat (S n) + 1) with (1 + (N.of_nat n + 1)) by lia.
+      apply costs_bind; [apply costs_read_byte|]. intros a.
+      destruct (stop a); [eapply costs_weaken; [cost_step|lia]|].
+      replace (N.of_nat n + 1) with (0 + (N.of_nat n + 1)) by lia.
+      apply costs_bind; [apply costs_delay|]. intros _. exact IH.
+  Qed.
+
   Lemma costs_wait_not_busy n : costs (wait_not_busy dstate spi n) (N.of_nat n + 1).
   Proof.
-    induction n as [|n IH]; cbn [wait_not_busy].
-    - replace (N.of_nat 0 + 1) with (1 + 0) by lia. apply costs_bind; [apply costs_read_byte|].
-      intros a. destruct (a =? 255); cost_step.
-    - replace (N.of_nat (S n) + 1) with (1 + (N.of_nat n + 1)) by lia.
-      apply costs_bind; [apply costs_read_byte|]. intros a.
-      destruct (a =? 255); [eapply costs_weaken; [cost_step|lia]|].
-      replace (N.of_nat n + 1) with (0 + (N.of_nat n + 1)) by lia.
-      apply costs_bind; [apply costs_delay|]. intros _. exact IH.
+    unfold wait_not_busy. replace (N.of_nat n + 1) with (N.of_nat n + 1 + 0) by lia.
+    apply costs_bind; [apply costs_poll|]. intros; cost_step.
   Qed.
-
   Lemma costs_command_response n c : costs (command_response dstate spi n c) (N.of_nat n + 1).
-  Proof.
-    induction n as [|n IH]; cbn [command_response].
-    - replace (N.of_nat 0 + 1) with (1 + 0) by lia. apply costs_bind; [apply costs_read_byte|].
-      intros a. destruct (N.land a 128 =? 0); cost_step.
-    - replace (N.of_nat (S n) + 1) with (1 + (N.of_nat n + 1)) by lia.
-      apply costs_bind; [apply costs_read_byte|]. intros a.
-      destruct (N.land a 128 =? 0); [eapply costs_weaken; [cost_step|lia]|].
-      replace (N.of_nat n + 1) with (0 + (N.of_nat n + 1)) by lia.
-      apply costs_bind; [apply costs_delay|]. intros _. exact IH.
-  Qed.
-
+  Proof. apply costs_poll. Qed.
   Lemma costs_read_token n : costs (read_token dstate spi n) (N.of_nat n + 1).
-  Proof.
-    induction n as [|n IH]; cbn [read_token].
-    - replace (N.of_nat 0 + 1) with (1 + 0) by lia. apply costs_bind; [apply costs_read_byte|].
-      intros a. destruct (negb (a =? 255)); cost_step.
-    - replace (N.of_nat (S n) + 1) with (1 + (N.of_nat n + 1)) by lia.
-      apply costs_bind; [apply costs_read_byte|]. intros a.
-      destruct (negb (a =? 255)); [eapply costs_weaken; [cost_step|lia]|].
-      replace (N.of_nat n + 1) with (0 + (N.of_nat n + 1)) by lia.
-      apply costs_bind; [apply costs_delay|]. intros _. exact IH.
-  Qed.
+  Proof. apply costs_poll. Qed.
 
   (* ---- explicit bounds, in the retry constants ------------------------------ *)
   Definition B_cmd : N := (COMMAND_RETRIES + 1) + 6 + 1 + (COMMAND_RETRIES + 1).
@@ -336,11 +322,11 @@ Section Bound.
       apply costs_bind; [apply costs_delay|]. intros _. exact IH.
   Qed.
 
-  Lemma costs_acquire_inner : costs (acquire_inner dstate spi o) (B_acquire - 1).
+  Lemma costs_acquire_probe : costs (acquire_probe dstate spi o) (B_acquire - 1).
   Proof.
-    unfold acquire_inner, B_acquire.
+    unfold acquire_probe, B_acquire.
     replace (B_enter + B_cmd + B_version + B_ready + (B_cmd + 4) + 1 - 1)
-      with (B_enter + (B_cmd + (B_version + (B_ready + ((B_cmd + 4) + 0))))) by lia.
+      with (B_enter + (B_cmd + (B_version + (B_ready + (B_cmd + 4))))) by lia.
     apply costs_bind.
     { eapply costs_weaken; [apply costs_enter_spi_mode|]. rewrite N2Nat.id. unfold B_enter. lia. }
     intros _. apply costs_bind.
@@ -354,7 +340,7 @@ Section Bound.
     { eapply costs_weaken; [apply costs_check_version|]. rewrite N2Nat.id. unfold B_version. lia. }
     intros [ct arg]. apply costs_bind.
     { eapply costs_weaken; [apply costs_wait_ready|]. rewrite N2Nat.id. unfold B_ready. lia. }
-    intros _. apply costs_bind; [|intros; cost_step].
+    intros _.
     destruct ct; try (eapply costs_weaken; [cost_step|lia]).
     replace (B_cmd + 4) with (B_cmd + (4 + 0)) by lia.
     apply costs_bind; [apply costs_card_command|]. intros r.
@@ -362,6 +348,12 @@ Section Bound.
       [eapply costs_weaken; [cost_step|lia]|].
     apply costs_bind; [apply (costs_transfer_bytes [255;255;255;255])|]. intros buf.
     match goal with |- context [if ?b then _ else _] => destruct b end; cost_step.
+  Qed.
+
+  Lemma costs_acquire_inner : costs (acquire_inner dstate spi o) (B_acquire - 1).
+  Proof.
+    unfold acquire_inner. replace (B_acquire - 1) with (B_acquire - 1 + 0) by lia.
+    apply costs_bind; [apply costs_acquire_probe|]. intros; cost_step.
   Qed.
 
   Lemma B_acquire_pos : 1 <= B_acquire.
@@ -396,55 +388,50 @@ Section Bound.
       apply costs_bind; [exact IH|]. intros; cost_step.
   Qed.
 
-  (* the only arithmetic of read/write that can overflow: `start_block_idx.0 * 512` *)
-  Lemma clocks_start_idx idx : clocks (start_idx dstate idx) 0.
+  Lemma costs_start_idx idx err : costs (start_idx dstate idx err) 0.
   Proof.
-    unfold start_idx. change 0 with (0 + 0). apply clocks_bind; [apply costs_clocks, costs_get_ctype|].
-    intros [[| |]|]; try (destruct (2 ^ 32 <=? idx * 512));
-      first [apply clocks_panic | apply costs_clocks; cost_step].
-  Qed.
-  Lemma costs_start_idx idx : idx * 512 < 2 ^ 32 -> costs (start_idx dstate idx) 0.
-  Proof.
-    intros Hi. unfold start_idx. change 0 with (0 + 0). apply costs_bind; [apply costs_get_ctype|].
-    intros [[| |]|]; try (destruct (N.leb_spec (2 ^ 32) (idx * 512)); [lia|]); cost_step.
+    unfold start_idx. change 0 with (0 + 0). apply costs_bind; [apply costs_get_ctype|].
+    intros [[| |]|]; try (destruct (2 ^ 32 <=? idx * 512)); cost_step.
   Qed.
 
-  Lemma costs_read_body n a :
-    costs (match n with
-           | 1%nat => bind dstate (card_command dstate spi CMD17 a)
-                        (fun _ => bind dstate (read_data dstate spi o 512) (fun b => ret dstate [b]))
-           | _ => bind dstate (card_command dstate spi CMD18 a)
-                    (fun _ => bind dstate (read_blocks dstate spi o n)
-                       (fun bs => bind dstate (card_command dstate spi CMD12 0) (fun _ => ret dstate bs)))
-           end) (B_read (N.of_nat n)).
+  Lemma costs_first_error {A B} (a : outcome A) (b : outcome B) :
+    a <> Panic -> b <> Panic -> costs (first_error dstate a b) 0.
+  Proof. intros Ha Hb. unfold first_error. destruct a; [destruct b| |]; try congruence; cost_step. Qed.
+
+  (* bind over `attempt`: the attempted computation's outcome is never Panic *)
+  Lemma costs_bind_attempt {A B} (m : M A) (f : outcome A -> M B) b1 b2 :
+    costs m b1 -> (forall a, a <> Panic -> costs (f a) b2) ->
+    costs (bind dstate (attempt dstate m) f) (b1 + b2).
   Proof.
-    unfold B_read.
-    assert (Multi : costs (bind dstate (card_command dstate spi CMD18 a)
-                    (fun _ => bind dstate (read_blocks dstate spi o n)
-                       (fun bs => bind dstate (card_command dstate spi CMD12 0) (fun _ => ret dstate bs))))
+    intros Hm Hf s r s' E. unfold bind, attempt in E. destruct (m s) as [a s1] eqn:Em.
+    destruct (Hm _ _ _ Em) as [Hp H1]. destruct (Hf a Hp _ _ _ E) as [Hq H2]. split; [exact Hq|lia].
+  Qed.
+
+  Lemma costs_read_inner n idx : costs (read_inner dstate spi o n idx) (B_read (N.of_nat n)).
+  Proof.
+    unfold read_inner, B_read. replace (B_cmd + N.of_nat n * B_read_data 512 + B_cmd)
+      with (0 + (B_cmd + N.of_nat n * B_read_data 512 + B_cmd)) by lia.
+    apply costs_bind; [apply costs_start_idx|]. intros a.
+    assert (Multi : costs (bind dstate (card_command dstate spi CMD18 a) (fun r =>
+                      if negb (r =? 0) then fail dstate ReadError else
+                      bind dstate (attempt dstate (read_blocks dstate spi o n)) (fun result =>
+                      bind dstate (attempt dstate (card_command dstate spi CMD12 0)) (fun stopped =>
+                      first_error dstate result stopped))))
                     (B_cmd + N.of_nat n * B_read_data 512 + B_cmd)).
     { replace (B_cmd + N.of_nat n * B_read_data 512 + B_cmd)
         with (B_cmd + (N.of_nat n * B_read_data 512 + (B_cmd + 0))) by lia.
-      apply costs_bind; [apply costs_card_command|]. intros _.
-      apply costs_bind; [apply costs_read_blocks|]. intros bs.
-      apply costs_bind; [apply costs_card_command|]. intros; cost_step. }
+      apply costs_bind; [apply costs_card_command|]. intros r.
+      destruct (negb (r =? 0)); [eapply costs_weaken; [cost_step|lia]|].
+      apply costs_bind_attempt; [apply costs_read_blocks|]. intros res Hres.
+      apply costs_bind_attempt; [apply costs_card_command|]. intros st Hst.
+      apply costs_first_error; assumption. }
     destruct n as [|[|n]]; try exact Multi.
     eapply costs_weaken.
-    { apply costs_bind; [apply costs_card_command|]. intros _.
+    { apply costs_bind; [apply costs_card_command|]. intros r. instantiate (1 := B_read_data 512).
+      destruct (negb (r =? 0)); [eapply costs_weaken; [cost_step|lia]|].
+      replace (B_read_data 512) with (B_read_data (N.of_nat 512) + 0) by (change (N.of_nat 512) with 512; lia).
       apply costs_bind; [apply (costs_read_data 512)|]. intros; cost_step. }
-    change (N.of_nat 512) with 512. change (N.of_nat 1) with 1. lia.
-  Qed.
-
-  Lemma costs_read_inner n idx : idx * 512 < 2 ^ 32 ->
-    costs (read_inner dstate spi o n idx) (B_read (N.of_nat n)).
-  Proof.
-    intros Hi. unfold read_inner. replace (B_read (N.of_nat n)) with (0 + B_read (N.of_nat n)) by lia.
-    apply costs_bind; [apply costs_start_idx, Hi|]. intros a. apply costs_read_body.
-  Qed.
-  Lemma clocks_read_inner n idx : clocks (read_inner dstate spi o n idx) (B_read (N.of_nat n)).
-  Proof.
-    unfold read_inner. replace (B_read (N.of_nat n)) with (0 + B_read (N.of_nat n)) by lia.
-    apply clocks_bind; [apply clocks_start_idx|]. intros a. apply costs_clocks, costs_read_body.
+    change (N.of_nat 1) with 1. lia.
   Qed.
 
   Definition payload (blocks : list (list N)) : N := N.of_nat (length (concat blocks)).
@@ -465,82 +452,66 @@ Section Bound.
       intros _. apply costs_bind; [apply costs_write_data|]. intros _. exact IH.
   Qed.
 
-  Lemma costs_write_body blocks a :
-    costs (match blocks with
-           | [b] =>
-               bind dstate (card_command dstate spi CMD24 a) (fun _ =>
-               bind dstate (write_data dstate spi o DATA_START_BLOCK b) (fun _ =>
-               bind dstate (wait_not_busy dstate spi (N.to_nat WRITE_RETRIES)) (fun _ =>
-               bind dstate (card_command dstate spi CMD13 0) (fun r =>
-               if negb (r =? 0) then fail dstate WriteError else
-               bind dstate (read_byte dstate spi) (fun r2 =>
-               if negb (r2 =? 0) then fail dstate WriteError else ret dstate tt)))))
-           | _ =>
-               bind dstate (card_acmd dstate spi ACMD23 (N.of_nat (length blocks) mod 2 ^ 32)) (fun _ =>
-               bind dstate (wait_not_busy dstate spi (N.to_nat WRITE_RETRIES)) (fun _ =>
-               bind dstate (card_command dstate spi CMD25 a) (fun _ =>
-               bind dstate (write_blocks dstate spi o blocks) (fun _ =>
-               bind dstate (wait_not_busy dstate spi (N.to_nat WRITE_RETRIES)) (fun _ =>
-               write_byte dstate spi STOP_TRAN_TOKEN)))))
-           end) (B_write (N.of_nat (length blocks)) (payload blocks)).
+  Lemma costs_write_inner blocks idx :
+    costs (write_inner dstate spi o blocks idx) (B_write (N.of_nat (length blocks)) (payload blocks)).
   Proof.
-    unfold B_write.
+    unfold write_inner, B_write.
+    match goal with |- costs _ ?b => replace b with (0 + b) by lia end.
+    apply costs_bind; [apply costs_start_idx|]. intros a.
     assert (Multi : costs
        (bind dstate (card_acmd dstate spi ACMD23 (N.of_nat (length blocks) mod 2 ^ 32)) (fun _ =>
         bind dstate (wait_not_busy dstate spi (N.to_nat WRITE_RETRIES)) (fun _ =>
-        bind dstate (card_command dstate spi CMD25 a) (fun _ =>
-        bind dstate (write_blocks dstate spi o blocks) (fun _ =>
-        bind dstate (wait_not_busy dstate spi (N.to_nat WRITE_RETRIES)) (fun _ =>
-        write_byte dstate spi STOP_TRAN_TOKEN))))))
+        bind dstate (card_command dstate spi CMD25 a) (fun r =>
+        if negb (r =? 0) then fail dstate WriteError else
+        bind dstate (attempt dstate (bind dstate (write_blocks dstate spi o blocks)
+                                       (fun _ => wait_not_busy dstate spi (N.to_nat WRITE_RETRIES)))) (fun result =>
+        match result with
+        | Ok _ => write_byte dstate spi STOP_TRAN_TOKEN
+        | Err e => bind dstate (attempt dstate (card_command dstate spi CMD12 0)) (fun _ => fail dstate e)
+        | Panic => panic dstate
+        end)))))
        (B_acmd + (WRITE_RETRIES + 1) + B_cmd
         + (N.of_nat (length blocks) * (WRITE_RETRIES + 1 + 4) + payload blocks)
         + (WRITE_RETRIES + 1) + B_cmd + 1)).
     { eapply costs_weaken.
       { apply costs_bind; [apply costs_card_acmd|]. intros _.
         apply costs_bind; [apply costs_wait_not_busy|]. intros _.
-        apply costs_bind; [apply costs_card_command|]. intros _.
-        apply costs_bind; [apply costs_write_blocks|]. intros _.
-        apply costs_bind; [apply costs_wait_not_busy|]. intros _. apply costs_write_byte. }
+        apply costs_bind; [apply costs_card_command|]. intros r.
+        instantiate (1 := (N.of_nat (length blocks) * (WRITE_RETRIES + 1 + 4) + payload blocks
+                           + (N.of_nat (N.to_nat WRITE_RETRIES) + 1)) + (B_cmd + 1)).
+        destruct (negb (r =? 0)); [eapply costs_weaken; [cost_step|lia]|].
+        apply costs_bind_attempt.
+        { apply costs_bind; [apply costs_write_blocks|]. intros _. apply costs_wait_not_busy. }
+        intros res Hres. destruct res as [u|e|]; [| |congruence].
+        - eapply costs_weaken; [apply costs_write_byte|lia].
+        - eapply costs_weaken.
+          { apply costs_bind; [apply costs_attempt, costs_card_command|]. intros; cost_step. }
+          lia. }
       rewrite N2Nat.id. lia. }
     destruct blocks as [|b [|b2 bs]]; try exact Multi.
     eapply costs_weaken.
-    { apply costs_bind; [apply costs_card_command|]. intros _.
+    { apply costs_bind; [apply costs_card_command|]. intros r.
+      instantiate (1 := B_write_data (N.of_nat (length b)) + ((N.of_nat (N.to_nat WRITE_RETRIES) + 1) + (B_cmd + 1))).
+      destruct (negb (r =? 0)); [eapply costs_weaken; [cost_step|lia]|].
       apply costs_bind; [apply costs_write_data|]. intros _.
       apply costs_bind; [apply costs_wait_not_busy|]. intros _.
-      apply costs_bind; [apply costs_card_command|]. intros r.
-      instantiate (1 := 1).
-      destruct (negb (r =? 0)); [eapply costs_weaken; [cost_step|lia]|].
+      apply costs_bind; [apply costs_card_command|]. intros r'.
+      destruct (negb (r' =? 0)); [eapply costs_weaken; [cost_step|lia]|].
       replace 1 with (1 + 0) by lia. apply costs_bind; [apply costs_read_byte|]. intros r2.
       destruct (negb (r2 =? 0)); cost_step. }
     rewrite N2Nat.id. unfold payload, B_write_data, B_acmd. cbn [concat length]. rewrite app_nil_r.
     change (N.of_nat 1) with 1. lia.
   Qed.
 
-  Lemma costs_write_inner blocks idx : idx * 512 < 2 ^ 32 ->
-    costs (write_inner dstate spi o blocks idx) (B_write (N.of_nat (length blocks)) (payload blocks)).
-  Proof.
-    intros Hi. unfold write_inner.
-    replace (B_write (N.of_nat (length blocks)) (payload blocks))
-      with (0 + B_write (N.of_nat (length blocks)) (payload blocks)) by lia.
-    apply costs_bind; [apply costs_start_idx, Hi|]. intros a. apply costs_write_body.
-  Qed.
-  Lemma clocks_write_inner blocks idx :
-    clocks (write_inner dstate spi o blocks idx) (B_write (N.of_nat (length blocks)) (payload blocks)).
-  Proof.
-    unfold write_inner.
-    replace (B_write (N.of_nat (length blocks)) (payload blocks))
-      with (0 + B_write (N.of_nat (length blocks)) (payload blocks)) by lia.
-    apply clocks_bind; [apply clocks_start_idx|]. intros a. apply costs_clocks, costs_write_body.
-  Qed.
-
   Lemma costs_read_csd : costs (read_csd dstate spi o) B_csd.
   Proof.
     unfold read_csd, B_csd. replace (B_cmd + B_read_data 16) with (0 + (B_cmd + B_read_data 16)) by lia.
-    apply costs_bind; [apply costs_get_ctype|]. intros [[| |]|]; try (eapply costs_weaken; [cost_step|lia]).
-    all: apply costs_bind; [apply costs_card_command|]; intros r;
-      destruct (negb (r =? 0)); [eapply costs_weaken; [cost_step|unfold B_read_data; lia]|];
-      replace (B_read_data 16) with (B_read_data (N.of_nat 16) + 0) by (change (N.of_nat 16) with 16; lia);
-      apply costs_bind; [apply costs_read_data|]; intros; cost_step.
+    apply costs_bind; [apply costs_get_ctype|]. intros [ct|]; [|eapply costs_weaken; [cost_step|lia]].
+    apply costs_bind; [apply costs_card_command|]; intros r.
+    destruct (negb (r =? 0)); [eapply costs_weaken; [cost_step|unfold B_read_data; lia]|].
+    replace (B_read_data 16) with (B_read_data (N.of_nat 16) + 0) by (change (N.of_nat 16) with 16; lia).
+    apply costs_bind; [apply costs_read_data|]. intros d.
+    repeat match goal with |- context [if ?b then _ else _] => destruct b end; cost_step.
   Qed.
 
   Lemma clocks_num_blocks_inner : clocks (num_blocks_inner dstate spi o) B_csd.
@@ -586,8 +557,8 @@ Section Bound.
   Theorem api_clocks c : clocks (api dstate spi o c) (bound c).
   Proof.
     destruct c as [n idx|blocks idx| | | | |]; cbn [api bound].
-    - apply clocks_with_init, clocks_read_inner.
-    - apply clocks_with_init, clocks_write_inner.
+    - apply clocks_with_init, costs_clocks, costs_read_inner.
+    - apply clocks_with_init, costs_clocks, costs_write_inner.
     - apply clocks_with_init, clocks_num_blocks_inner.
     - apply clocks_with_init, clocks_num_bytes_inner.
     - apply clocks_with_init, costs_clocks, costs_erase_single.
@@ -597,19 +568,12 @@ Section Bound.
       intros [a|e|]; try cost_step. change 0 with (0 + 0). apply costs_bind; [cost_step|intros; cost_step].
   Qed.
 
-  (* the calls whose arithmetic can overflow (dev profile: panic) *)
-  Definition may_overflow (c : api_call) : bool :=
-    match c with
-    | CRead _ idx | CWrite _ idx => 2 ^ 32 <=? idx * 512
-    | CNumBlocks | CNumBytes => true
-    | _ => false
-    end.
-
-  Theorem api_costs c : may_overflow c = false -> costs (api dstate spi o c) (bound c).
+  (* every call except the two capacity queries (treated in SdCapacity.v) *)
+  Theorem api_costs_most c : c <> CNumBlocks -> c <> CNumBytes -> costs (api dstate spi o c) (bound c).
   Proof.
-    destruct c as [n idx|blocks idx| | | | |]; cbn [api bound may_overflow]; intros Hc; try discriminate.
-    - apply costs_with_init, costs_read_inner. apply N.leb_gt in Hc. exact Hc.
-    - apply costs_with_init, costs_write_inner. apply N.leb_gt in Hc. exact Hc.
+    destruct c as [n idx|blocks idx| | | | |]; cbn [api bound]; intros H1 H2; try congruence.
+    - apply costs_with_init, costs_read_inner.
+    - apply costs_with_init, costs_write_inner.
     - apply costs_with_init, costs_erase_single.
     - change 0 with (0 + 0). apply costs_bind; [cost_step|]. intros; cost_step.
     - replace B_acquire with (B_acquire + 0) by lia.
